@@ -115,6 +115,9 @@ Section CAS.
       destruct (s' =? stamp)%N; cbn; auto using set_nth_length.
   Qed.
 
+  Lemma cas_run_length sched s0 : length (cs_threads (fold_left (cas_step c key prov) sched s0)) = length (cs_threads s0).
+  Proof. revert s0; induction sched as [|i r IH]; intros s0; cbn; [reflexivity|]. rewrite IH. apply cas_threads_length. Qed.
+
   (* Under EVERY schedule: at most one store ever happens; and once every
      recorder has returned, exactly one has happened, the slot holds the
      renewal of the expired entry by one of the recorders (streak advanced
@@ -130,10 +133,7 @@ Section CAS.
   Proof.
     intros L st. pose proof (cas_inv_run next sched L) as I. fold st in I.
     assert (Len : length (cs_threads st) = length nows).
-    { unfold st, cas_run. generalize (cas_init next) (eq_refl (length (cs_threads (cas_init next)))).
-      unfold cas_init at 2; cbn [cs_threads]. rewrite map_length.
-      induction sched as [|i r IH]; intros s0 E; cbn; [exact E|].
-      apply IH. now rewrite cas_threads_length. }
+    { unfold st, cas_run. rewrite cas_run_length. cbn. apply map_length. }
     destruct I as [[S [W [Nx F]]] | [id1 [w [Iw [Ne [S [W F]]]]]]].
     - split; [lia|]. intros NE D. exfalso.
       destruct (cs_threads st) as [|r rs] eqn:T; [destruct nows; [contradiction | discriminate]|].
@@ -166,8 +166,9 @@ Proof. vm_compute. reflexivity. Qed.
 Lemma nth_error_set_nth {A} (l : list A) i j x :
   nth_error (set_nth l i x) j = if (i =? j)%nat then (if (i <? length l)%nat then Some x else None) else nth_error l j.
 Proof.
-  revert i j; induction l as [|y r IH]; intros [|i] [|j]; cbn; auto.
-  rewrite IH. destruct (i =? j)%nat; auto.
+  revert i j; induction l as [|y r IH]; intros i j.
+  - cbn. destruct (i =? j)%nat; destruct j; reflexivity.
+  - destruct i as [|i], j as [|j]; cbn; auto. rewrite IH. destruct (i =? j)%nat; auto.
 Qed.
 Lemma nth_set_nth_other {A} (l : list A) i j x d : i <> j -> nth j (set_nth l i x) d = nth j l d.
 Proof. revert i j; induction l as [|y r IH]; intros [|i] [|j] Ne; cbn; auto; try contradiction. Qed.
@@ -206,23 +207,25 @@ Proof.
 Qed.
 
 Ltac leaders_unchanged E I1 I2 :=
-  split;
-  [ intros i g; rewrite nth_error_set_nth; destruct (_ =? i)%nat eqn:Q;
-    [ destruct (_ <? _)%nat; discriminate | intro A; exact (I1 i g A) ]
-  | intros i j g g'; rewrite !nth_error_set_nth; destruct (_ =? i)%nat eqn:Q1; destruct (_ =? j)%nat eqn:Q2;
-    try (destruct (_ <? _)%nat; discriminate); intros A B; exact (I2 i j g g' A B) ].
+  unfold probe_inv; cbn [ps_reqs ps_group ps_gens ps_fs ps_elected]; split;
+  [ intros ? ?; rewrite nth_error_set_nth; destruct (_ =? _)%nat;
+    [ destruct (_ <? _)%nat; discriminate | apply I1 ]
+  | intros ? ? ? ?; rewrite !nth_error_set_nth;
+    repeat match goal with |- context [(?a =? ?b)%nat] => destruct (a =? b)%nat end;
+    try (destruct (_ <? _)%nat; discriminate); apply I2 ].
 
 Theorem probe_inv_step st a : probe_inv st -> probe_inv (probe_step st a).
 Proof.
   intros [I1 I2].
+  assert (Inv0 : probe_inv st) by (split; assumption).
   assert (NoLeader : ps_group st = None -> forall i g, nth_error (ps_reqs st) i <> Some (PLeader g)).
   { intros Gn i g E. destruct (I1 i g E) as [G _]. rewrite Gn in G. discriminate. }
   destruct a as [r|r o|r]; unfold probe_step.
-  - destruct (nth_error (ps_reqs st) r) as [q|] eqn:E; [|split; auto].
-    destruct q; try (split; auto; fail).
+  - destruct (nth_error (ps_reqs st) r) as [q|] eqn:E; [|exact Inv0].
+    destruct q; try exact Inv0.
     destruct (ps_fs st); try (cbn; leaders_unchanged E I1 I2).
     destruct (ps_group st) as [g0|] eqn:Gr.
-    + cbn. rewrite <- Gr. leaders_unchanged E I1 I2.
+    + cbn. leaders_unchanged E I1 I2.
     + (* election on arrival: nobody is in flight *)
       assert (Lr : (r <? length (ps_reqs st))%nat = true).
       { apply Nat.ltb_lt. apply nth_error_Some. now rewrite E. }
@@ -237,8 +240,8 @@ Proof.
         -- exfalso. eapply NoLeader; eauto.
         -- exfalso. eapply NoLeader; eauto.
         -- exfalso. eapply NoLeader; eauto.
-  - destruct (nth_error (ps_reqs st) r) as [q|] eqn:E; [|split; auto].
-    destruct q as [ |g| | | | | ]; try (split; auto; fail).
+  - destruct (nth_error (ps_reqs st) r) as [q|] eqn:E; [|exact Inv0].
+    destruct q as [ |g| | | | | ]; try exact Inv0.
     (* the only leader leaves: afterwards there is none *)
     assert (Lr : (r <? length (ps_reqs st))%nat = true).
     { apply Nat.ltb_lt. apply nth_error_Some. now rewrite E. }
@@ -246,23 +249,23 @@ Proof.
     { intros i g'. rewrite nth_error_set_nth, Lr. destruct (r =? i)%nat eqn:Q; [discriminate|].
       intro A. specialize (I2 r i g g' E A). apply Nat.eqb_neq in Q. contradiction. }
     split; cbn; intros; exfalso; eapply None'; eauto.
-  - destruct (nth_error (ps_reqs st) r) as [q|] eqn:E; [|split; auto].
-    destruct q as [ | |g regs| | | | ]; try (split; auto; fail).
-    destruct (g_done (gen_of st g)) eqn:Dn; cbn [negb]; [|split; auto].
+  - destruct (nth_error (ps_reqs st) r) as [q|] eqn:E; [|exact Inv0].
+    destruct q as [ | |g regs| | | | ]; try exact Inv0.
+    destruct (g_done (gen_of st g)) eqn:Dn; cbn [negb]; [|exact Inv0].
     destruct (ps_fs st); try (cbn; leaders_unchanged E I1 I2).
     destruct (regs >=? max_probe_regroups); [cbn; leaders_unchanged E I1 I2|].
     destruct (g_next (gen_of st g)) as [nx|]; [cbn; leaders_unchanged E I1 I2|].
     destruct (ps_group st) as [cur|] eqn:Gr.
-    + destruct (cur =? g)%N eqn:Qc; [split; auto|].
+    + destruct (cur =? g)%N eqn:Qc; [exact Inv0|].
       (* link previous -> current, follow it; the table changes only at the done generation g *)
       split; cbn.
-      * intros i g'. rewrite nth_error_set_nth. destruct (r =? i)%nat eqn:Q; [destruct (_ <? _)%nat; discriminate|].
-        intro A. destruct (I1 i g' A) as [G [Nd Ln]]. rewrite Gr in G. repeat split; auto.
+      * intros i0 g'. rewrite nth_error_set_nth. destruct (r =? i0)%nat eqn:Q; [destruct (_ <? _)%nat; discriminate|].
+        intro A. destruct (I1 i0 g' A) as [G [Nd Ln]]. rewrite Gr in G. repeat split; auto.
         -- unfold gen_of in *; cbn. rewrite nth_set_nth_other; auto.
            intro Eq. apply N2Nat.inj in Eq. subst. unfold gen_of in Dn. rewrite Dn in Nd. discriminate.
         -- now rewrite set_nth_length.
-      * intros i j g1 g2. rewrite !nth_error_set_nth. destruct (r =? i)%nat eqn:Q1; destruct (r =? j)%nat eqn:Q2;
-          try (destruct (_ <? _)%nat; discriminate). intros A B. exact (I2 i j g1 g2 A B).
+      * intros i0 j0 g1 g2. rewrite !nth_error_set_nth. destruct (r =? i0)%nat eqn:Q1; destruct (r =? j0)%nat eqn:Q2;
+          try (destruct (_ <? _)%nat; discriminate). intros A B. exact (I2 i0 j0 g1 g2 A B).
     + (* Regroup elects: nobody is in flight *)
       assert (Lr : (r <? length (ps_reqs st))%nat = true).
       { apply Nat.ltb_lt. apply nth_error_Some. now rewrite E. }
